@@ -23,9 +23,11 @@
 //            start fragment, truncated to the announced length, size = announced length + headers; nothing is handed out twice
 // Signatures carry the *input class* (what was unusual about the fragments), judged by a reference tracker that follows the
 // Core spec reading (a start fragment always begins a new SDU), never by looking at how the object failed:
-//          fragment-exceeds-remaining | start-during-reassembly | rejected-start-during-reassembly | after-rejected-start | wellformed
+//          fragment-exceeds-remaining | start-during-reassembly | rejected-start-during-reassembly | after-rejected-start |
+//          unfragmented-start-during-reassembly | wellformed
 // (a fragment that cannot fit into the buffer at all names the class of a memory failure; else a start fragment that arrived
-// inside an incomplete SDU does - an accepted one rather than a rejected one)
+// inside an incomplete SDU does - the most recent one; unfragmented-start-during-reassembly: a start
+// fragment that is a whole SDU and is handed out as it is)
 #include "C19_common.hpp"
 
 namespace {
@@ -33,7 +35,7 @@ namespace {
 using namespace c19;
 
 enum Kind : std::uint8_t { K_START = 2, K_CONT = 1, K_CTRL = 3, K_LLID0 = 0 };
-enum Anomaly : std::uint8_t { A_NONE, A_START_DURING, A_REJECTED_START_DURING, A_EXCEEDS, A_REJECTED_START };
+enum Anomaly : std::uint8_t { A_NONE, A_START_DURING, A_REJECTED_START_DURING, A_EXCEEDS, A_REJECTED_START, A_UNFRAGMENTED_START_DURING };
 
 struct Frag
 {
@@ -104,6 +106,7 @@ struct World
             events.push_back( Ev{ K_START, std::uint16_t( MTU ), std::min( MAXBODY, MTU + 3 ) } );   // first fragment of the largest SDU
             events.push_back( Ev{ K_START, 1, 5 } );                                                    // unfragmented SDU
             events.push_back( Ev{ K_START, std::uint16_t( MTU + 1 ), std::min( MAXBODY, MTU + 3 ) } ); // too large: rejected
+            events.push_back( Ev{ K_START, 1, 3 } );                                                    // no room for the L2CAP header: rejected
             events.push_back( Ev{ K_CONT, 0, std::min( MAXBODY, MTU + 3 ) } );
             events.push_back( Ev{ K_CONT, 0, -3 } );
             events.push_back( Ev{ K_CTRL, 0, 3 } );
@@ -141,7 +144,8 @@ struct World
 
     static const char* anomaly_name( int a )
     {
-        return a == A_START_DURING ? "start-during-reassembly" : a == A_REJECTED_START_DURING ? "rejected-start-during-reassembly" : a == A_EXCEEDS ? "fragment-exceeds-remaining" : a == A_REJECTED_START ? "after-rejected-start" : "wellformed";
+        return a == A_START_DURING ? "start-during-reassembly" : a == A_REJECTED_START_DURING ? "rejected-start-during-reassembly" : a == A_EXCEEDS ? "fragment-exceeds-remaining" : a == A_REJECTED_START ? "after-rejected-start"
+             : a == A_UNFRAGMENTED_START_DURING ? "unfragmented-start-during-reassembly" : "wellformed";
     }
 
     std::size_t sdu_used() const { return dut->receive_buffer_used_; }
@@ -268,7 +272,7 @@ struct World
             if ( ref.q[ i ].kind == K_START || ref.q[ i ].kind == K_CONT )
             {
                 const Unusual u = track( ref.q[ i ] );
-                if ( u.structural == A_START_DURING || ( u.structural != A_NONE && ( structural == A_NONE || structural == A_REJECTED_START ) ) ) structural = u.structural;
+                if ( u.structural != A_NONE && ( u.structural != A_REJECTED_START || structural == A_NONE ) ) structural = u.structural;   // the most recent one names the class
                 exceeded = exceeded || u.exceeds;
                 no_fit = no_fit || u.does_not_fit;
             }
@@ -361,6 +365,15 @@ struct World
                 return true;
             }
             cls( c, mc::fmt( "deliver:%s:%s", f.kind == K_CTRL ? "ctrl" : "unfragmented-sdu", ref.active ? "while-sdu-incomplete" : "idle" ) );
+            if ( f.kind == K_START )
+            {
+                // every start fragment - also one that is a whole SDU and is handed out as it is - ends an incomplete SDU:
+                // the continuations that follow belong to no SDU
+                if ( ref.nh == 12 ) { for ( int i = 1; i != 12; ++i ) ref.h[ i - 1 ] = ref.h[ i ]; --ref.nh; }
+                ref.h[ ref.nh++ ] = f;
+                if ( ref.active ) ref.structural = A_UNFRAGMENTED_START_DURING;
+                ref.active = 0; ref.total = 0; ref.got = 0;
+            }
         }
 
         // the link layer is done with it
@@ -417,11 +430,13 @@ int main( int argc, char** argv )
     total.unit = a.opt.count( "unit" ) ? a.opt[ "unit" ] : mc::fmt( "C19_rx-mtu%d-max%d", MTU, MAXS );
     static World w;
     const bool th = a.thorough();
-    // the 251 byte configurations have a four times larger state image and thousands of ASan reports: one level less
+    // the 251 byte configurations have a four times larger state image: one level less in the wide pass, two in the deep one;
+    // where a whole SDU fits into one PDU many more sequences are accepted: one level less in the deep pass
     const int less = MAXS > 100 ? 1 : 0;
+    const int deep_less = MAXS > 100 ? 2 : MAXBODY > MTU + 3 ? 1 : 0;
     // thorough: the wide pass keeps its depth but gets the larger alphabet (33..36 instead of 21..23 events)
     // (the cheap deep pass runs first, the wide one gets all the time that is left)
-    const std::vector< Pass > passes = { { "deep", false, int( a.num( "deep-depth", ( th ? 9 : 7 ) - ( th ? 2 : 1 ) * less ) ) }, { th ? "wide-large" : "wide", true, int( a.num( "wide-depth", 4 - less ) ) } };
+    const std::vector< Pass > passes = { { "deep", false, int( a.num( "deep-depth", ( th ? 9 : 7 ) - deep_less ) ) }, { th ? "wide-large" : "wide", true, int( a.num( "wide-depth", 4 - less ) ) } };
     std::string only;
     if ( !a.replay.empty() )
     {   // the trace's "detail" line starts with the pass name
